@@ -380,6 +380,8 @@ class C10(CrossCfg):
 
 
 class C11(CrossCfg):
+    lean = ["Props.C11", "Audit.C11"]
+    audit = ["C11"]
     tie = ["SqlMeta", "Schema"]
     facts = [r"^sql\..*\.meta$", r"^schema\."]
     listed = set()
